@@ -2,7 +2,7 @@
 
     Each pass walks the top-level statements once and yields, for every declaration it looks at,
     an [outcome]: the declaration instruction of the entity it registers, or the one diagnostic it
-    reports.  A declaration is admitted when its name is not yet registered and it passes its
+    reports.  A declaration is registered when its name is not yet registered and it passes its
     checks.  The tables, the global instruction stack and the declaration diagnostics are
     projections of these outcome lists.  Only [Sem.v] (types of tables and outputs) is imported. *)
 From SA Require Import Sem.
@@ -10,13 +10,13 @@ Local Open Scope list_scope.
 
 (** ** Outcomes *)
 Inductive outcome :=
-| Admit (g : ginstr)
-| Reject (e : err).
+| Registers (g : ginstr)
+| Reports (e : err).
 
-Definition admitted (l : list outcome) : list ginstr :=
-  flat_map (fun o => match o with Admit g => [g] | Reject _ => [] end) l.
-Definition rejected (l : list outcome) : list err :=
-  flat_map (fun o => match o with Admit _ => [] | Reject e => [e] end) l.
+Definition registered (l : list outcome) : list ginstr :=
+  flat_map (fun o => match o with Registers g => [g] | Reports _ => [] end) l.
+Definition reported (l : list outcome) : list err :=
+  flat_map (fun o => match o with Registers _ => [] | Reports e => [e] end) l.
 
 (** The table entry a declaration instruction stands for. *)
 Definition types_of (l : list ginstr) : list (string * sem_ty) :=
@@ -35,8 +35,8 @@ Fixpoint pass1 (seen : list string) (p : program) : list outcome :=
   | [] => []
   | TStructDecl n a :: p' =>
       if smem (iname n) seen
-      then Reject (Err ETypeAlreadyExist (Some (iname n)) (iloc n)) :: pass1 seen p'
-      else Admit (GTypes (struct_of_decl n a)) :: pass1 (iname n :: seen) p'
+      then Reports (Err ETypeAlreadyExist (Some (iname n)) (iloc n)) :: pass1 seen p'
+      else Registers (GTypes (struct_of_decl n a)) :: pass1 (iname n :: seen) p'
   | _ :: p' => pass1 seen p'
   end.
 
@@ -72,25 +72,25 @@ Section Pass2.
     end.
 
   Definition const_outcome (cs : list string) (n : ident) (ty : ast_ty) (v : cexpr) : outcome :=
-    if smem (iname n) cs then Reject (Err EConstantAlreadyExist (Some (iname n)) (iloc n))
+    if smem (iname n) cs then Reports (Err EConstantAlreadyExist (Some (iname n)) (iloc n))
     else match missing_const cs (ce_rest v) with
-         | Some c => Reject (Err EConstantNotFound (Some (iname c)) (iloc c))
+         | Some c => Reports (Err EConstantNotFound (Some (iname c)) (iloc c))
          | None =>
-             if tok (sem_of_ty ty) then Admit (GConst (spec_const n ty v))
-             else Reject (Err ETypeNotFound (Some (iname n)) (iloc n))
+             if tok (sem_of_ty ty) then Registers (GConst (spec_const n ty v))
+             else Reports (Err ETypeNotFound (Some (iname n)) (iloc n))
          end.
 
   Definition fn_outcome (fs : list string) (f : fn_decl) : outcome :=
     let n := fn_name f in
-    if smem (iname n) fs then Reject (Err EFunctionAlreadyExist (Some (iname n)) (iloc n))
+    if smem (iname n) fs then Reports (Err EFunctionAlreadyExist (Some (iname n)) (iloc n))
     else if tok (sem_of_ty (fn_result f)) then
       match bad_param (fn_params f) with
-      | Some x => Reject (Err ETypeNotFound (Some (iname x)) (iloc n))
-      | None => Admit (spec_fn_instr f)
+      | Some x => Reports (Err ETypeNotFound (Some (iname x)) (iloc n))
+      | None => Registers (spec_fn_instr f)
       end
-    else Reject (Err ETypeNotFound (Some (iname n)) (iloc n)).
+    else Reports (Err ETypeNotFound (Some (iname n)) (iloc n)).
 
-  Definition is_admit (o : outcome) : bool := match o with Admit _ => true | Reject _ => false end.
+  Definition is_reg (o : outcome) : bool := match o with Registers _ => true | Reports _ => false end.
 
   (** [cs], [fs]: the names of the constants and functions registered so far. *)
   Fixpoint pass2 (cs fs : list string) (p : program) : list outcome :=
@@ -98,34 +98,34 @@ Section Pass2.
     | [] => []
     | TConst n ty v :: p' =>
         let o := const_outcome cs n ty v in
-        o :: pass2 (if is_admit o then iname n :: cs else cs) fs p'
+        o :: pass2 (if is_reg o then iname n :: cs else cs) fs p'
     | TFn f :: p' =>
         let o := fn_outcome fs f in
-        o :: pass2 cs (if is_admit o then iname (fn_name f) :: fs else fs) p'
+        o :: pass2 cs (if is_reg o then iname (fn_name f) :: fs else fs) p'
     | _ :: p' => pass2 cs fs p'
     end.
 End Pass2.
 
 (** ** The specification *)
 Definition spec_pass1 (p : program) : list outcome := pass1 [] p.
-Definition spec_types (p : program) : list (string * sem_ty) := types_of (admitted (spec_pass1 p)).
+Definition spec_types (p : program) : list (string * sem_ty) := types_of (registered (spec_pass1 p)).
 
 Definition type_ok (T : list (string * sem_ty)) (t : sem_ty) : bool :=
   is_prim t || amem (type_name t) T.
 
 Definition spec_pass2 (p : program) : list outcome := pass2 (type_ok (spec_types p)) [] [] p.
 Definition spec_consts (p : program) : list (string * const_sem) :=
-  consts_of (admitted (spec_pass2 p)).
+  consts_of (registered (spec_pass2 p)).
 Definition spec_funcs (p : program) : list (string * func_sem) :=
-  funcs_of (admitted (spec_pass2 p)).
+  funcs_of (registered (spec_pass2 p)).
 Definition spec_globals (p : program) : globals :=
   Globals (spec_types p) (spec_consts p) (spec_funcs p).
 
 (** Types first, then constants and functions in source order. *)
 Definition spec_gstack (p : program) : list ginstr :=
-  admitted (spec_pass1 p) ++ admitted (spec_pass2 p).
+  registered (spec_pass1 p) ++ registered (spec_pass2 p).
 Definition spec_decl_errs (p : program) : list err :=
-  rejected (spec_pass1 p) ++ rejected (spec_pass2 p).
+  reported (spec_pass1 p) ++ reported (spec_pass2 p).
 
 (** Every function declaration, registered or not. *)
 Definition spec_fns (p : program) : list fn_decl :=
